@@ -1,53 +1,119 @@
 ------------------------------- MODULE LnExp -------------------------------
 (***************************************************************************)
-(* Natural logarithm and exponential in 104-bit fixed point (module Fx).    *)
+(* Natural logarithm, exponential, sine and cosine in fixed point with a     *)
+(* selectable number of fractional limbs.                                   *)
 (*                                                                         *)
-(* FxLn(y), y > 0:  y is brought into [1/sqrt 2, sqrt 2] by exact halving /  *)
-(*   doubling (ln y = k ln 2 + ln(y / 2^k)), then                            *)
+(* A P-number with precision fl is a BigInt n denoting n * BASE^-fl (fl      *)
+(* fractional limbs of 13 bits); fl = FL = 8 is module Fx's 104-bit format.   *)
+(* Judging a recorded f64 (f32) result needs a reference good to about 60     *)
+(* (33) bits only, and the cost of a product grows with the square of the      *)
+(* number of limbs, so trace validation uses fl = 5 (65 bits) and fl = 3       *)
+(* (39 bits); the model checks use fl = 8.                                    *)
+(*                                                                         *)
+(* LnP(y, fl), y > 0:  y is brought into [1/sqrt 2, sqrt 2] by exact halving  *)
+(*   / doubling (ln y = k ln 2 + ln(y / 2^k)), then                          *)
 (*   ln y = 2 atanh z = 2 (z + z^3/3 + z^5/5 + ...),  z = (y - 1)/(y + 1),    *)
-(*   |z| <= 0.1716, 21 terms: remainder below 2^-108.                        *)
-(* FxExp(x), |x| < 40:  x = k ln 2 + r with |r| <= (ln 2)/2, Taylor series of *)
-(*   exp r up to r^24/24! (remainder below 2^-110), result scaled by 2^k.     *)
-(* Every Fx product truncates below 2^-104; about 45 of them are chained, so  *)
-(* the absolute error of FxLn is below 2^-96 and the relative error of FxExp  *)
-(* below 2^-95.  Checked against tabulated values of ln 2, ln 3, ln 10, e,    *)
-(* sqrt e, ... and against each other in MC_Cam16.                           *)
+(*   |z| <= 0.1716; the series stops when a term underflows (at most 21       *)
+(*   terms, remainder below 2^-108).                                        *)
+(* ExpP(x, fl), |x| < 40:  x = k ln 2 + r with |r| <= (ln 2)/2, Taylor series  *)
+(*   of exp r (at most r^24/24!, remainder below 2^-110), scaled by 2^k.      *)
+(* SinCosP(h, fl), h in degrees within a few turns of 0: reduced by           *)
+(*   comparisons to [0, 45] degrees, Taylor series in radians (as module      *)
+(*   Trig, which reduces by long division and is fixed to fl = 8).            *)
+(* Every product truncates below BASE^-fl; about 45 are chained, so the        *)
+(* absolute error of LnP is below 2^-(13 fl - 8) and the relative error of      *)
+(* ExpP, and the absolute error of SinCosP, below 2^-(13 fl - 9).  Checked      *)
+(* against tabulated values of ln 2, ln 3, ln 10, e, sqrt e, ..., against       *)
+(* each other and against Trig!SinCosDeg in MC_Cam16.                        *)
+(*                                                                         *)
+(* Evaluation note: TLC re-evaluates a LET definition at every use but an      *)
+(* operator argument only once; expensive values are passed as arguments.     *)
 (***************************************************************************)
 EXTENDS Fx
+
+POfFx(x, fl) == IShiftLimbs(x, fl - FL)                 \* fl <= FL: truncates toward zero
+FxOfP(x, fl) == IShiftLimbs(x, FL - fl)
+POfDy(d, fl) == DyAt(d, -fl)                            \* truncates below BASE^-fl
+PInt(n, fl) == IShiftLimbs(IFromInt(n), fl)
+POne(fl) == PInt(1, fl)
+PMul(x, y, fl) == IShiftLimbs(IMul(x, y), -fl)
+PSqr(x, fl) == IShiftLimbs(ISqr(x), -fl)
+(* p / q for ordinary integers, 0 < q < 2^17 *)
+PRat(p, q, fl) == IF p = 0 THEN IZero
+                  ELSE IMk(IF p > 0 THEN 1 ELSE -1, DivSmall(ShiftLimbs(FromNat(IF p > 0 THEN p ELSE -p), fl), q))
+PScale2(x, k) == IF k >= 0 THEN IShl(x, k) ELSE IShr(x, -k)
+(* 2^-k, k <= 13 fl *)
+PEps(k, fl) == <<1, Pow2(LIMB_BITS * fl - k)>>
+PDivInt(x, k) == IMk(x[1], DivSmall(x[2], k))             \* 0 < k < 2^17
+
+(* reciprocal of d > 0 by Newton iteration on d' = d 2^(13 fl - n) in [1/2, 1): x0 = 48/17 - 32/17 d' (error <= 1/17),
+   x <- x (2 - d' x): the error squares each time, 2^-65 after four and 2^-130 after five iterations *)
+RECURSIVE PNewton(_, _, _, _)
+PNewton(dn, x, k, fl) == IF k = 0 THEN x ELSE PNewton(dn, PMul(x, ISub(PInt(2, fl), PMul(dn, x, fl)), fl), k - 1, fl)
+PRecip2(dn, sh, fl) == PScale2(PNewton(dn, ISub(PRat(48, 17, fl), PMul(PRat(32, 17, fl), dn, fl)), IF fl <= 3 THEN 4 ELSE IF fl <= 5 THEN 5 ELSE 6, fl), sh)
+PRecip1(d, sh, fl) == PRecip2(PScale2(d, sh), sh, fl)
+PRecipPos(d, fl) == PRecip1(d, LIMB_BITS * fl - BitLen(d[2]), fl)
+PDiv1(x, y, q) == IMk(x[1] * y[1], q[2])
+PDiv(x, y, fl) == IF x[1] = 0 THEN IZero ELSE PDiv1(x, y, PMul(IAbs(x), PRecipPos(IAbs(y), fl), fl))
 
 (* ln 2 = 0.6931 4718 0559 9453 0941 7232 1214 5817 6568 ...  (groups of four decimals) *)
 Ln2Fx == FxDec(1, 0, <<6931, 4718, 559, 9453, 941, 7232, 1214, 5817, 6568>>)
 (* sqrt 2 = 1.4142 1356 2373 0950 4880 1688 7242 0969 8078 ... *)
 Sqrt2Fx == FxDec(1, 1, <<4142, 1356, 2373, 950, 4880, 1688, 7242, 969, 8078>>)
+(* pi = 3.1415 9265 3589 7932 3846 2643 3832 7950 2884 1971 ... *)
+PiFxP == FxDec(1, 3, <<1415, 9265, 3589, 7932, 3846, 2643, 3832, 7950, 2884, 1971>>)
 
-RECURSIVE AtanhTerms(_, _, _, _)
+RECURSIVE AtanhTerms(_, _, _, _, _)
 (* sum over odd n' >= n of z^n' / n', given p = z^n and z2 = z^2 *)
-AtanhTerms(p, z2, n, last) ==
-  IF n > last \/ FxIsZero(p) THEN FxZero
-  ELSE FxAdd(FxDivInt(p, n), AtanhTerms(FxMul(p, z2), z2, n + 2, last))
-
+AtanhTerms(p, z2, n, last, fl) ==
+  IF n > last \/ p[1] = 0 THEN IZero
+  ELSE IAdd(PDivInt(p, n), AtanhTerms(PMul(p, z2, fl), z2, n + 2, last, fl))
+LnCore1(z, fl) == IShl(AtanhTerms(z, PSqr(z, fl), 1, 41, fl), 1)
 (* ln y for y in [1/sqrt 2, sqrt 2] *)
-LnCore(y) == LET z == FxDiv(FxSub(y, FxOne), FxAdd(y, FxOne))
-             IN FxShl(AtanhTerms(z, FxSqr(z), 1, 41), 1)
+LnCore(y, fl) == LnCore1(PDiv(ISub(y, POne(fl)), IAdd(y, POne(fl)), fl), fl)
 
-RECURSIVE LnRed(_, _)
-LnRed(y, k) == IF FxLt(Sqrt2Fx, y) THEN LnRed(FxHalf(y), k + 1)
-               ELSE IF FxLt(y, FxHalf(Sqrt2Fx)) THEN LnRed(FxShl(y, 1), k - 1)
-               ELSE FxAdd(FxMulInt(Ln2Fx, k), LnCore(y))
-(* natural logarithm, y > 0 (y >= 2^-60, say: each doubling is exact, each halving drops one bit below 2^-104) *)
-FxLn(y) == LnRed(y, 0)
+RECURSIVE LnRed(_, _, _, _, _)
+LnRed(y, k, s2, ln2, fl) == IF ILt(s2, y) THEN LnRed(IShr(y, 1), k + 1, s2, ln2, fl)
+                            ELSE IF ILt(y, IShr(s2, 1)) THEN LnRed(IShl(y, 1), k - 1, s2, ln2, fl)
+                            ELSE IAdd(IMulSmall(ln2, k), LnCore(y, fl))
+(* natural logarithm of a P-number y > 0 *)
+LnP(y, fl) == LnRed(y, 0, POfFx(Sqrt2Fx, fl), POfFx(Ln2Fx, fl), fl)
+FxLn(y) == LnP(y, FL)
 
-RECURSIVE ExpTerms(_, _, _, _)
+RECURSIVE ExpTerms(_, _, _, _, _)
 (* sum over k >= n of r^k / k!, given term = r^n / n! *)
-ExpTerms(term, r, n, last) ==
-  IF n > last \/ FxIsZero(term) THEN FxZero
-  ELSE FxAdd(term, ExpTerms(FxDivInt(FxMul(term, r), n + 1), r, n + 1, last))
-ExpCore(r) == ExpTerms(FxOne, r, 0, 24)
+ExpTerms(term, r, n, last, fl) ==
+  IF n > last \/ term[1] = 0 THEN IZero
+  ELSE IAdd(term, ExpTerms(PDivInt(PMul(term, r, fl), n + 1), r, n + 1, last, fl))
+ExpCore(r, fl) == ExpTerms(POne(fl), r, 0, 24, fl)
 
-RECURSIVE ExpRed(_, _)
-ExpRed(x, k) == IF FxLt(FxHalf(Ln2Fx), x) THEN ExpRed(FxSub(x, Ln2Fx), k + 1)
-                ELSE IF FxLt(x, FxNeg(FxHalf(Ln2Fx))) THEN ExpRed(FxAdd(x, Ln2Fx), k - 1)
-                ELSE FxScale2(ExpCore(x), k)
-(* exponential, |x| < 40 *)
-FxExp(x) == ExpRed(x, 0)
+RECURSIVE ExpRed(_, _, _, _)
+ExpRed(x, k, ln2, fl) == IF ILt(IShr(ln2, 1), x) THEN ExpRed(ISub(x, ln2), k + 1, ln2, fl)
+                         ELSE IF ILt(x, INeg(IShr(ln2, 1))) THEN ExpRed(IAdd(x, ln2), k - 1, ln2, fl)
+                         ELSE PScale2(ExpCore(x, fl), k)
+(* exponential of a P-number, |x| < 40 *)
+ExpP(x, fl) == ExpRed(x, 0, POfFx(Ln2Fx, fl), fl)
+FxExp(x) == ExpP(x, FL)
+
+RECURSIVE SinTermsP(_, _, _, _, _)
+(* sum over n' >= n (same parity) of the alternating series, given term = +- x^n / n! and x2 = x^2 *)
+SinTermsP(term, x2, n, last, fl) ==
+  IF n > last \/ term[1] = 0 THEN IZero
+  ELSE IAdd(term, SinTermsP(INeg(PDivInt(PMul(term, x2, fl), (n + 1) * (n + 2))), x2, n + 2, last, fl))
+SC45b(x, x2, fl) == <<SinTermsP(x, x2, 1, 27, fl), SinTermsP(POne(fl), x2, 0, 26, fl)>>
+SC45a(x, fl) == SC45b(x, PSqr(x, fl), fl)                      \* |x| <= pi/4 radians
+(* d degrees, 0 <= d <= 45 *)
+SC45(d, fl) == SC45a(PDivInt(PMul(d, POfFx(PiFxP, fl), fl), 180), fl)
+SwapSC(p) == <<p[2], p[1]>>
+SC90(d, fl) == IF ILe(d, PInt(45, fl)) THEN SC45(d, fl) ELSE SwapSC(SC45(ISub(PInt(90, fl), d), fl))
+SignSC(p, ss, sc) == <<IF ss < 0 THEN INeg(p[1]) ELSE p[1], IF sc < 0 THEN INeg(p[2]) ELSE p[2]>>
+SCQ(r, fl) == IF ILe(r, PInt(90, fl)) THEN SC90(r, fl)
+              ELSE IF ILe(r, PInt(180, fl)) THEN SignSC(SC90(ISub(PInt(180, fl), r), fl), 1, -1)
+              ELSE IF ILe(r, PInt(270, fl)) THEN SignSC(SC90(ISub(r, PInt(180, fl)), fl), -1, -1)
+              ELSE SignSC(SC90(ISub(PInt(360, fl), r), fl), -1, 1)
+RECURSIVE Wrap360P(_, _)
+Wrap360P(h, fl) == IF h[1] < 0 THEN Wrap360P(IAdd(h, PInt(360, fl)), fl)
+                   ELSE IF ILe(PInt(360, fl), h) THEN Wrap360P(ISub(h, PInt(360, fl)), fl) ELSE h
+(* <<sin, cos>> of h degrees (a P-number within a few turns of zero) *)
+SinCosP(h, fl) == SCQ(Wrap360P(h, fl), fl)
 =============================================================================
